@@ -207,12 +207,25 @@ Reaches(a, f, n) == Act(a, f, In1(a, n))
 \* A searchable layer object with several call sites has ONE output mask and ONE input calculator.  That is
 \* consistent iff all its call sites write into the same sharing component and read tensors whose alive
 \* pattern is governed by the same masker (e.g. a weight-shared residual block h' = relu(B(h)) + h).
+\* It is also consistent when nothing can be pruned on either side: the masker the object ends up with (the one of
+\* the call site convert_layers meets first, MaskerSite) is frozen and no other searchable layer writes into the
+\* components of the call sites (h = relu(conv(x)); return conv(h)), and every tensor read is never pruned.
+\* (MaskerSite = the LAST call site is only certain when every path from the other sites to the output runs through it)
+RECURSIVE OutAvoiding(_, _, _)
+OutAvoiding(a, n, x) == n # x /\ (n = N(a) \/ \E c \in (n + 1)..N(a) : n \in SeqSet(Ins(a, c)) /\ OutAvoiding(a, c, x))
+LastSiteDominates(a, s) == LET l == MaskerSite(a, s) IN \A t \in CallSites(a, Owner(a, s)) \ {l} : ~OutAvoiding(a, t, l)
+OnlyOwnSites(a, s) == \A m \in SearchLayers(a) : m \in Comp(a, s) => Owner(a, m) = Owner(a, s)
+NeverPrunedSrc(a, b) == b = 0 \/ (IsLayer(a, b) /\ ~IsDw(a, b) /\
+                                   (~Searchable(a, b) \/ (HasMasker(a, MaskerSite(a, b)) /\ Frozen(a, MaskerSite(a, b)))))
 ConsistentReuse(a, s1, s2) ==
-    /\ Rep(a, s1) = Rep(a, s2)
+    /\ \/ Rep(a, s1) = Rep(a, s2)
+       \/ (HasMasker(a, MaskerSite(a, s1)) /\ Frozen(a, MaskerSite(a, s1)) /\ LastSiteDominates(a, s1)
+              /\ OnlyOwnSites(a, s1) /\ OnlyOwnSites(a, s2))
     /\ LET b1 == SetByOf(a, In1(a, s1))  b2 == SetByOf(a, In1(a, s2)) IN
            \/ b1 = b2
            \/ (b1 # 0 /\ b2 # 0 /\ Searchable(a, b1) /\ Searchable(a, b2) /\ ~IsDw(a, b1) /\ ~IsDw(a, b2)
                   /\ Rep(a, MaskerSite(a, b1)) = Rep(a, MaskerSite(a, b2)))
+           \/ (NeverPrunedSrc(a, b1) /\ NeverPrunedSrc(a, b2))
 KF_Reuse(a) == \E n \in Layers(a) : Searchable(a, n) /\
                    \E s1, s2 \in CallSites(a, Owner(a, n)) : s1 # s2 /\ ~ConsistentReuse(a, s1, s2)
 KF_DwOrphan(a) == \E n \in SearchLayers(a) : ~HasMasker(a, MaskerSite(a, n))
